@@ -167,6 +167,12 @@ static int parse_cb(cfg_t *cfg, cfg_opt_t *opt, const char *value, void *result)
 	fclose(mf);
 	logadd(buf);
 	if (fail) {
+		/* a refusing callback may well have written to its result first: the verdict is the return value */
+		if (opt->type == CFGT_STR) {
+			static char rbuf[64];
+			snprintf(rbuf, sizeof rbuf, "refused%ld", n);
+			*(const char **)result = rbuf;
+		}
 		cfg_error(cfg, "value callback refused '%s'", value ? value : "(null)");
 		return 1;
 	}
